@@ -561,6 +561,9 @@ func prepareHostnameGateways(gateways map[string]*PublicGateway) *hostnameGatewa
 	}
 
 	for hostname, gw := range gateways {
+		// Host names are compared in their canonical form, see isKnownHostname.
+		hostname = canonicalHostname(hostname)
+
 		// Validate that UseSubdomains is not enabled for IP addresses
 		if gw.UseSubdomains {
 			hostWithoutPort := stripPort(hostname)
@@ -591,9 +594,22 @@ func prepareHostnameGateways(gateways map[string]*PublicGateway) *hostnameGatewa
 	return h
 }
 
+// canonicalHostname returns the form of a Host header value that is compared
+// with the configured gateway hostnames: host names are case-insensitive and
+// may be written with the trailing dot of the DNS root. The port is kept.
+func canonicalHostname(hostname string) string {
+	host, port, err := net.SplitHostPort(hostname)
+	if err != nil {
+		return strings.ToLower(strings.TrimSuffix(hostname, "."))
+	}
+	return net.JoinHostPort(strings.ToLower(strings.TrimSuffix(host, ".")), port)
+}
+
 // isKnownHostname checks the given hostname gateways and returns a matching
 // specification with graceful fallback to version without port.
 func (gws *hostnameGateways) isKnownHostname(hostname string) (gw *PublicGateway, ok bool) {
+	hostname = canonicalHostname(hostname)
+
 	// Try hostname (host+optional port - value from Host header as-is)
 	if gw, ok := gws.exact[hostname]; ok {
 		return gw, ok
@@ -633,7 +649,7 @@ func (gws *hostnameGateways) knownSubdomainDetails(hostname string) (gw *PublicG
 			continue
 		}
 
-		ns := labels[i-1]
+		ns := strings.ToLower(labels[i-1])
 		if !isSubdomainNamespace(ns) {
 			continue
 		}
